@@ -128,6 +128,9 @@ pub const PAYLOADS: &[&str] = &[
     "pv := -9223372036854775807 - 1\nprint(pv)\nprint(pv % -1)\nprint(pv + 0)\nprint(pv / -1)\nprint(\"after\")\n",
     "pv := -9223372036854775807 - 1\npv /= -1\nprint(pv)\n",
     "pv := \"crème brûlée\"\nprint(pv->len())\nprint(pv[:pv->len()] == pv)\nprint((pv + \"!\")[pv->len()])\npi := 0\nfor pe in pv {\npi += 1\n}\nprint(pi == pv->len())\n",
+    "pi := 0\nwhile pi < 3 {\npi += 1\nif pi == 3 {\ncontinue\n}\nprint(pi)\n}\nprint(pi)\npv := [1, 2, 3]\nwhile pv != [] {\npe := pv[0]\npv = pv[1:]\nif pe == 3 {\ncontinue\n}\nprint(pe)\n}\n",
+    "pv := \"id\"\npw := {$\"${pv}_a\": 1, \"b\": 2}\nprint(pw)\npw[$\"${pv}_c\"] = 3\nprint(pw[$\"${pv}_a\"] + pw.id_c)\n{$\"${pv}_a\": pg} := pw\nprint(pg)\n",
+    "pv := [1, 2, 3, 4, 5]\npv[2:] = [7, 8, 9]\nprint(pv)\npv[:2] = [0, 0]\nprint(pv)\npv[:] = [5, 4, 3, 2, 1]\nprint(pv)\npv[3:] = [9]\nprint(pv)\n",
     "fn pf() {\npi := 0\nwhile true {\npi += 1\nif pi < 3 {\ncontinue\n} else {\nbreak\n}\n}\nreturn pi\n}\nprint(pf())\n",
 ];
 
